@@ -236,3 +236,26 @@ Proof.
   eapply Permutation_NoDup; [apply Permutation_sym, sec_ix_perm|exact Hnd].
 Qed.
 End U.
+
+(* ---- C20: 'all' against 'section' ---- *)
+Section X.
+Context {B : Type}.
+(* calc_per='all' and calc_per='section' see the same locations with the same multiplicities: the rows of 'all' are a
+   rearrangement (into fibre order) of the per-bath rows concatenated in dictionary order *)
+Lemma flat_map_pair_sel xs (b : B) (ss : list stretch) :
+  flat_map (fun bs : B * stretch => sel xs (snd bs)) (map (pair b) ss) = flat_map (sel xs) ss.
+Proof. induction ss as [|s ss IH]; simpl; [reflexivity|]. rewrite IH. reflexivity. Qed.
+Lemma ix_all_perm_sections xs (secs : @sections B) : Permutation (ix_all xs secs) (flat_map (sec_ix xs) secs).
+Proof.
+  etransitivity; [apply ix_all_perm|]. unfold stretches_all.
+  induction secs as [|bl secs IH]; simpl; [constructor|].
+  rewrite flat_map_app. apply Permutation_app; [|exact IH].
+  rewrite flat_map_pair_sel. symmetry. apply sec_ix_perm.
+Qed.
+(* one reference bath per row of 'all' *)
+Lemma ref_all_length xs (secs : @sections B) : length (ref_all xs secs) = length (ix_all xs secs).
+Proof.
+  unfold ref_all, ix_all. induction (by_start (stretches_all secs)) as [|bs l IH]; simpl; [reflexivity|].
+  rewrite !app_length, repeat_length, IH. reflexivity.
+Qed.
+End X.
